@@ -93,9 +93,28 @@ Proof.
       assert (0 < / (0 + (1 + (3 + 0)))) by (apply Rinv_0_lt_compat; Lra.lra). Lra.lra.
 Qed.
 
+(* (e) the correspondence check evaluates the constructor and the scan in exact rational
+   arithmetic (sumlQ, cat_new_Q, scan_Q: normalised rationals, comparison by Qle_bool); mapped to
+   the reals with Q2R that evaluation IS the real-number model of (d) on the rational inputs *)
+From Coq Require Import QArith Qreals.
+From MiniMcmc Require Import Proofs.Links.
+Close Scope Q_scope.
+
+Theorem C16_q_normalise_is_real :
+  (forall l : list Q, Q2R (sumlQ l) = sumlR (map Q2R l)) /\
+  (forall ws : list Q, ~ (sumlQ ws == 0)%Q -> map Q2R (cat_new_Q ws) = cat_new_R (map Q2R ws)).
+Proof. exact (conj q2r_suml q2r_cat_new). Qed.
+
+Theorem C16_q_scan_is_real : forall (ps : list Q) (i : nat) (cum r : Q),
+  scan_Q ps i cum r = scan_R (map Q2R ps) i (Q2R cum) (Q2R r).
+Proof. exact q2r_scan. Qed.
+
+
 Print Assumptions C16_in_range.
 Print Assumptions C16_never_zero.
 Print Assumptions C16_old_rule_refuted.
 Print Assumptions C16_normalised.
 Print Assumptions C16_law.
 Print Assumptions C16_law_never_zero_R.
+Print Assumptions C16_q_normalise_is_real.
+Print Assumptions C16_q_scan_is_real.
